@@ -129,6 +129,7 @@ def largestFrame (c : ImplCase) : Nat :=
     n + 2 + (if n < 126 then 0 else if n < 65536 then 2 else 8) + (if c.role == .client then 4 else 0)
   c.ops.foldl (fun acc o =>
     let fromOp := match o.body with
+      | "write" :: "close" :: _ :: h :: _ => frameLen ((if h == "-" then 0 else h.length / 2) + 2)
       | "write" :: _ :: h :: _ => frameLen (if h == "-" then 0 else h.length / 2)
       | "close" :: _ :: h :: _ => frameLen ((if h == "-" then 0 else h.length / 2) + 2)
       | _ => frameLen 0
@@ -663,6 +664,32 @@ def monMem (c : ImplCase) : List String :=
 configuration of the case header do not apply (the correspondence still compares everything) -/
 def hasSetCfg (c : ImplCase) : Bool := c.ops.any fun o => isOp o "setcfg"
 
+/-- an I/O error reported to the user comes from the transport: the call that reports `Io(kind)`
+made a transport call that failed with that kind (a write that accepted 0 bytes is reported by the
+library as a reset). Anything else is an error the library invented on a stream/transport that had
+none — e.g. "unexpected end of file" because a frame header had not arrived completely. -/
+def monIoOrigin (c : ImplCase) : List String :=
+  if !c.newOk then [] else
+  let bad : Option (Bool × String) := c.ops.toList.findSome? fun o =>
+    match resErr o with
+    | some e =>
+      if e.startsWith "Io." then
+        let kind := (e.drop 3).toString
+        let has (p : String → Bool) : Bool := o.io.any p
+        let ok :=
+          if kind == "WouldBlock" then has fun t => t == "r:b" || t.startsWith "w:b" || t == "f:b"
+          else if kind == "reset" then has fun t => t.startsWith "r:xreset" || t.startsWith "w:xreset" || t.startsWith "f:xreset" || t.startsWith "w:0/"
+          else if kind == "intr" then has fun t => t.startsWith "r:xintr" || t.startsWith "w:xintr" || t.startsWith "f:xintr"
+          else if kind == "other" then has fun t => t.startsWith "r:xother" || t.startsWith "w:xother" || t.startsWith "f:xother"
+          else false
+        if ok then none else some (isOp o "read", s!"io-error-not-from-the-transport {e}")
+      else none
+    | none => none
+  match bad with
+  | some (true, b) => ["C02", "C05", "C19", "C01", "C07"].map fun p => s!"mon {p} FAIL {b}"
+  | some (false, b) => ["C10", "C13", "C14", "C07"].map fun p => s!"mon {p} FAIL {b}"
+  | none => []
+
 /-- C06 under a changing configuration: a data message handed to the user is never larger than
 the `max_message_size` in force when it is delivered -/
 def monC06Live (c : ImplCase) : List String :=
@@ -700,7 +727,7 @@ def leadingSetCfg (c : ImplCase) : Option ImplCase :=
 def allFixed (c : ImplCase) : List String :=
   let m10 := monC10 c
   let m09 := monC09 c
-  monC07 c ++ monMem c ++ monSpecAll c ++ monC05Block c ++ monC03 c ++ m09 ++ monC09Keys c ++ m10 ++ monC11 c ++ monC12 c ++ monC13 c ++ monC14 c ++ monC01 c
+  monC07 c ++ monIoOrigin c ++ monMem c ++ monSpecAll c ++ monC05Block c ++ monC03 c ++ m09 ++ monC09Keys c ++ m10 ++ monC11 c ++ monC12 c ++ monC13 c ++ monC14 c ++ monC01 c
     ++ alias m10 "C10" "C19" ++ alias m09 "C09" "C19" ++ alias m10 "C10" "C01"
     ++ alias (m10.filter (·.contains "wire-not-prefix-of-accepted")) "C10" "C09"
     ++ alias (monC13 c) "C13" "C10" ++ alias ((monC13 c).filter (·.contains "FAIL")) "C13" "C12"
@@ -710,11 +737,14 @@ def allFixed (c : ImplCase) : List String :=
 
 def all (c : ImplCase) : List String :=
   if !hasSetCfg c then allFixed c else
-  match leadingSetCfg c with
+  -- (the generators keep `max_write_buffer_size` at least as large as the largest frame of a case,
+  -- as C11/C13/C14 quantify; an installed configuration is only judged like a creation-time one
+  -- when it respects that too)
+  match (leadingSetCfg c).filter bufferHoldsLargest with
   | some c' => allFixed c'
   | none =>
     -- the configuration changes in mid-connection: only the monitors that follow the change (or
     -- do not depend on the configuration) apply; the correspondence still compares everything
-    monC07 c ++ monC09 c ++ monC09Keys c ++ monC05Block c ++ monC14 c ++ monC06Live c
+    monC07 c ++ monIoOrigin c ++ monC09 c ++ monC09Keys c ++ monC05Block c ++ monC14 c ++ monC06Live c
 
 end Mon
